@@ -37,9 +37,17 @@ pub fn assumptions(id: &str) -> Vec<String> {
         "harness build = opt-level 3 with overflow-checks and debug-assertions on, applied to the engine crate as well".to_string(),
     ];
     match id {
-        "C05" | "C06" | "C07" => v.push("no 64-bit Zobrist collision between distinct positions inside one game's history (probability < 1e-8 per run)".into()),
-        "C01" | "C12" => v.push("reference model of the rules (harness/src/model.rs) is itself correct; cross-checked by C11 which uses no model".into()),
-        "C08" => v.push("'from scratch' means the crate's own Zobrist::from_piece_board, not a copy of its tables".into()),
+        "C05" | "C06" | "C07" => {
+            v.push("no 64-bit Zobrist collision between distinct positions inside one game's history (probability < 1e-8 per run)".into());
+            v.push("injected-history legs: a mid-turn state rebuilt through the public constructors with the results of some of its turn-ending actions inserted twice at the old end of its repetition history is treated as a state a real game can be in (same material, no capture in the current turn, reconstruction without injection verified to be indistinguishable from the played state)".into());
+            v.push("start positions may show a piece standing unsupported on a trap (one generated start in eight); the first action removes it".into());
+        }
+        "C02" | "C03" | "C10" | "C14" | "C15" | "C19" => v.push("start positions may show a piece standing unsupported on a trap (one generated start in eight); the first action removes it (C10: 'once any action has been applied')".into()),
+        "C01" | "C12" | "C04" | "C09" | "C13" => v.push("reference model of the rules (harness/src/model.rs) is itself correct; cross-checked by C11 which uses no model".into()),
+        "C08" => {
+            v.push("'from scratch' means the crate's own Zobrist::from_piece_board, not a copy of its tables".into());
+            v.push("start positions may show a piece standing unsupported on a trap (one generated start in eight); the first action removes it".into());
+        }
         "C18" => v.push("the OS scheduler is not controlled: interleavings are sampled, data races are looked for with ThreadSanitizer in the thorough tier".into()),
         "C20" => v.push("quick tier uses the dev profile (what cargo test users run); thorough adds opt-level 3".into()),
         _ => {}
